@@ -271,6 +271,8 @@ def run(prog, chk):
     stale_text_pointers(prog, chk, "C06.l", fs)
     last_occurrence_scans(prog, chk, "C06.m", fs)
     text_pointer_sources(prog, chk, "C06.n")
+    substr_window(prog, chk, "C06.o")
+    cstring_view_probed(prog, chk, "C06.p")
 
 
 def formatted_length(prog, chk, fs):
@@ -782,3 +784,100 @@ def text_pointer_sources(prog, chk, rid):
                         "`%s` makes the String refer to text that is neither its own block nor text its caller named (`%s`): a copy that "
                         "shares unowned text changes when the other side's buffer is overwritten and dangles when it is freed "
                         "(String a; a.attach(buf, n); String b(a); buf[0] = 'x'; - b changed)" % (f.r(st.node)[:70], rt[:50]), evals=1)
+
+
+def substr_window(prog, chk, rid):
+    """substr(start, length) as a decision table: the window it copies, evaluated for lengths 0/1/5 of the text and starts / lengths on
+    both sides of every boundary (negative start counts from the end, negative length means "to the end"), must be the window of the
+    reference definition and lie inside the text"""
+    chk.rule(rid, "FIN: String::substr evaluated over (text length, start, length) around every boundary: the (offset, count) handed to the "
+                  "constructor equals the reference window clamp(start) .. min(len, start + length) and lies inside the text", floor=1)
+    fs = [f for f in prog.functions.values() if f.name == "String::substr" and f.blocks and len(f.params) == 2]
+    if not fs:
+        raise AnalysisBroken("String::substr(start, length) not found")
+    f = fs[0]
+    where = "%s:%s" % (f.file, f.line)
+    sn, ln = f.params[0]["n"], f.params[1]["n"]
+    ctor = [i for i, n in enumerate(f.nodes) if n["k"] in ("CXXConstructExpr", "CXXTemporaryObjectExpr") and (n.get("callee") or "").endswith("String::String") and
+            len([c_ for c_ in n["c"] if c_ >= 0]) == 2 and f.node_pos(i) is not None]
+    if not ctor:
+        raise AnalysisBroken("String::substr: construction of the result from (pointer, count) not found")
+    BASE = 100000
+    bad = None
+    n_ev = 0
+    for L in (0, 1, 5):
+        for st in (-7, -6, -5, -4, -1, 0, 1, 4, 5, 6, 9):
+            for ln_v in (-1, 0, 1, 3, 4, 5, 6, 12):
+                val = {sn: st, ln: ln_v, "this->data->len": L, "this->data->str": BASE}
+                got = {}
+
+                def trace(e, v_, _g=got):
+                    if e in ctor and "w" not in _g:
+                        a_ = [c_ for c_ in f.nodes[e]["c"] if c_ >= 0]
+                        _g["w"] = (fin.eval_expr(f, a_[0], v_), fin.eval_expr(f, a_[1], v_))
+                seen, end, fv = fin.walk_vals(f, f.entry, val, limit=200, trace=trace)
+                n_ev += 1
+                s0 = max(0, L + st) if st < 0 else min(st, L)
+                e0 = min(L, s0 + ln_v) if ln_v >= 0 else L
+                want = (BASE + s0, e0 - s0)
+                if got.get("w") != want:
+                    w = got.get("w")
+                    bad = (L, st, ln_v, "offset %s, count %s" % ((w[0] - BASE) if w and isinstance(w[0], int) else "?", w[1] if w else "?"), "offset %d, count %d" % (s0, e0 - s0))
+                    break
+            if bad:
+                break
+        if bad:
+            break
+    if bad:
+        chk.bad(rid, f, "substr-window", where,
+                "substr(%d, %d) of a %d-byte text copies %s; the reference window is %s (a window outside the text reads foreign memory, a "
+                "shifted one returns other bytes than a reference byte string)" % (bad[1], bad[2], bad[0], bad[3], bad[4]), evals=n_ev)
+    else:
+        chk.ok(rid, f, "substr window equals the reference window for %d (length, start, count) triples" % n_ev, where, "evaluation of the index arithmetic", evals=n_ev)
+
+
+def cstring_view_probed(prog, chk, rid):
+    """"Its C-string view is NUL-terminated at length()": blocks do not keep that by themselves (resize() on a fresh block, attached
+    ranges), the conversion operators repair it lazily.  Whatever they return has been probed: the byte at length() was seen to be zero,
+    or detach() (which terminates what it returns) ran."""
+    chk.rule(rid, "DOM/MPT: every `return data->str` of the const char* conversion operators is reached only over the zero edge of the probe "
+                  "`data->str[data->len]` or behind a detach() call - for owned and for attached text alike", floor=1)
+    fs = [f for f in prog.functions.values() if f.clsq == "String" and f.blocks and re.fullmatch(r"operator const char \*", f.short or "")]
+    if len(fs) < 2:
+        raise AnalysisBroken("String::operator const char*: %d bodies found, 2 expected" % len(fs))
+    for f in fs:
+        det = q.pos_of(f, _detach_calls(f))
+        for i, n in enumerate(f.nodes):
+            if n["k"] != "ReturnStmt" or not n["c"] or f.node_pos(i) is None:
+                continue
+            if not re.search(r"(->|\.)str$", q.no_casts(q.xr(f, n["c"][0])).strip("()")):
+                continue
+            # paths from the entry to this return that neither call detach() nor leave a probe over its zero edge
+            cut = set()
+            probes = 0
+            for b_ in f.blocks.values():
+                if b_.get("cond") is None or len(b_["succ"]) != 2 or b_.get("tk") == "SwitchStmt":
+                    continue
+                for truth, zero_succ in ((True, 1), (False, 0)):
+                    x_ = fin.nonzero_operand(f, b_["cond"], truth)
+                    if x_ is not None and re.fullmatch(r"(this->)?data->str\[(this->)?data->len\]", q.no_casts(q.xr(f, x_)).strip("()")):
+                        probes += 1
+                        nz = b_["succ"][0 if truth else 1]      # the edge on which the byte is known non-zero: only detach() helps there
+                        if nz is not None:
+                            cut.add((b_["id"], nz, "nz"))
+            # a path is fine when it passes detach, or when it passes a probe block (either edge: non-zero edges must still meet detach)
+            probe_blocks = set(b for b, _s, _k in cut)
+            nz_edges = set((b, s_) for b, s_, _k in cut)
+            # 1. a path that avoids every probe block and every detach
+            p1 = f.find_path(f.entry_pos(), {f.node_pos(i)}, avoid=det | set((b, len(f.blocks[b]["el"])) for b in probe_blocks), after_src=False)
+            # 2. a path over a non-zero edge that avoids detach
+            p2 = None
+            for b, s_ in nz_edges:
+                p2 = p2 or fin.path_with_cuts(f, (s_, 0), f.node_pos(i), avoid=det, after_src=False)
+            if p1 is None and p2 is None and probes:
+                chk.ok(rid, f, "the returned text was probed at length() (or detached)", f.where(i), "path search over the probe's edges", evals=3)
+            else:
+                chk.bad(rid, f, "cstring-view-unprobed", f.where(i),
+                        "`%s` can be returned on a path (lines %s) on which the byte at length() was not seen to be zero and detach() did not run: "
+                        "`String s; s.resize(n); strlen(s)` - a fresh block is not terminated at n, readers of the C string run past the text" % (
+                            q.no_casts(f.r(n["c"][0]))[:30], f.path_lines(p1 or p2)[:8] if (p1 or p2) else "-"), f.path_lines(p1 or p2) if (p1 or p2) else None, evals=3)
